@@ -6,7 +6,7 @@ The theorems of props/C13.v determine the model's answer (ordering maps, row hei
 positions, width bound), so a disagreement is a concrete violation.  In addition the property is
 evaluated DIRECTLY on the implementation's output for flat lists of letter-only texts: every label
 occurs exactly once, labels are laid out row-major / column-major on a grid, no letter of any item is
-lost (overlap), no line is longer than the width (no forced column width), and ValueError is raised
+lost (overlap), everything else is a blank, no line is longer than the width (no forced column width), and ValueError is raised
 exactly when the refusal condition of C13_refusal holds."""
 import json, math, collections
 import lib
@@ -28,7 +28,9 @@ MANIFEST = dict(
           "(C13_row_heights, C13_row_items_row/col, C13_item_height_numbered); with spacing >= 0, column k starts at "
           "k*(columns_width+spacing) and the item at (k, r) is drawn at row rowstart(r) = sum of the row heights above (C13_layout, "
           "C13_placements), the rectangles of different items are disjoint (C13_no_overlap, C13_item_inside_rect), every label and item "
-          "is readable in full at its place in the final buffer (C13_cells) and without a forced width every line is at most w long, "
+          "is readable in full at its place in the final buffer (C13_cells), every other cell is a blank and the buffer is, cell for cell and "
+          "in height, the function 'content of the covering label/item, blank where a stamp on the row starts further right, no cell "
+          "otherwise' of the proved placements (C13_blank_elsewhere, C13_blank_outside_rects, C13_render_determined, C13_buffer_ext), and without a forced width every line is at most w long, "
           "for texts, separators, centred widgets, list containers and windows nested in any way (C13_within_width, using C11_width); "
           "all closed under the global context.  The model is tied to /repo on every run by rendering the same enumerated and random "
           "trees with the real containers and the extracted model, and the property is also evaluated directly on the implementation's lines."),
@@ -125,7 +127,12 @@ def direct_eval(spec, w, res):
     if pat is None:
         if want != got:
             return ("overlap", "the letters shown differ from the letters of the items (something was overwritten)")
+        if any(not (ch.isalpha() or ch == " ") for l in lines for ch in l):
+            return ("not-blank", "a cell outside every item is not a blank (C13_blank_elsewhere)")
         return None
+    allowed = set(" ") | {ch for i in range(n) for ch in label(pat, i)}
+    if any(not (ch.isalpha() or ch in allowed) for l in lines for ch in l):
+        return ("not-blank", "a cell outside every label and item holds a character that is not a blank (C13_blank_elsewhere)")
     # numbered: every label exactly once, on the grid, in order
     pos = []
     for i in range(n):
@@ -139,6 +146,10 @@ def direct_eval(spec, w, res):
         pos.append(p[0])
     if want != got:
         return ("overlap", "the letters shown differ from the letters of the items (something was overwritten)")
+    # blank elsewhere: apart from the letters of the items and the labels (each found once) everything is a space
+    other = sum(1 for l in lines for ch in l if not ch.isalpha() and ch != " ")
+    if other != sum(len(label(pat, i).replace(" ", "")) for i in range(n)):
+        return ("not-blank", "a cell outside every label and item is not a blank (C13_blank_elsewhere, C13_render_determined)")
     p_col = math.ceil(n / c) if n else 0
     def grid(i):
         return (i % c, i // c) if kind == "row" else (i // p_col, i % p_col)
